@@ -38,6 +38,12 @@ type jExpect struct {
 	ConfigValid     *bool             `json:"configValid,omitempty"`
 	Components      json.RawMessage   `json:"components,omitempty"`
 	Diags           json.RawMessage   `json:"diags,omitempty"`
+	Routes          []struct {
+		Name              string `json:"name"`
+		WellLinked        bool   `json:"wellLinked"`
+		WellLinkedAsBuilt bool   `json:"wellLinkedAsBuilt"`
+		Ptag              string `json:"ptag"`
+	} `json:"routes"`
 }
 
 type jFinding struct {
@@ -259,6 +265,155 @@ func judgeCase(rec *caseRecord, sum *jSummary) {
 	checkSec("main", main)
 	checkSec("alt", rec.Runs["alt"])
 
+	// ---- C06: documented parameters, bodies and responses equal the declared signature -------------------------------------
+	checkC06 := func(runName string, r *runObs) {
+		if !accepted(r) || r.Spec == nil || exp.Ambiguous {
+			return
+		}
+		obsOps := map[string]oaOp{}
+		for _, o := range r.Spec.Ops {
+			obsOps[opKey(o.Verb, o.Path)] = o
+		}
+		for _, raw := range exp.Operations {
+			var e struct {
+				Verb   string `json:"verb"`
+				Path   string `json:"path"`
+				Params []struct {
+					Name     string `json:"name"`
+					In       string `json:"in"`
+					Required bool   `json:"required"`
+					Schema   any    `json:"schema"`
+				} `json:"params"`
+				Body struct {
+					Kind     string `json:"kind"`
+					Required bool   `json:"required"`
+					Schema   any    `json:"schema"`
+					Fields   []struct {
+						Name     string `json:"name"`
+						Required bool   `json:"required"`
+						Schema   any    `json:"schema"`
+					} `json:"fields"`
+				} `json:"body"`
+				Success struct {
+					Code   int `json:"code"`
+					Schema any `json:"schema"`
+				} `json:"success"`
+				Errors []struct {
+					Code   int `json:"code"`
+					Schema any `json:"schema"`
+				} `json:"errors"`
+			}
+			if err := json.Unmarshal(raw, &e); err != nil {
+				sum.Trouble = append(sum.Trouble, rec.ID+": bad expected operation: "+err.Error())
+				return
+			}
+			o, ok := obsOps[opKey(e.Verb, e.Path)]
+			if !ok {
+				continue // C01's business
+			}
+			nontrivial := len(e.Errors) > 0 || e.Body.Kind != "none"
+			for _, p := range e.Params {
+				if !p.Required {
+					nontrivial = true
+				}
+			}
+			eval("C06", nontrivial)
+			where := fmt.Sprintf("%s (%s) %s %s", runName, r.Spec.Version, e.Verb, e.Path)
+			// parameters, in signature order
+			got := []string{}
+			for _, p := range o.Params {
+				got = append(got, fmt.Sprintf("%s in %s required=%v schema=%s", p.Name, p.In, p.Required, mustJSON(absSchema(p.Schema))))
+			}
+			want := []string{}
+			for _, p := range e.Params {
+				want = append(want, fmt.Sprintf("%s in %s required=%v schema=%s", p.Name, p.In, p.Required, mustJSON(canon(p.Schema))))
+			}
+			if strings.Join(got, "; ") != strings.Join(want, "; ") {
+				add("C06", fmt.Sprintf("%s: parameters documented as [%s], signature declares [%s]", where, strings.Join(got, "; "), strings.Join(want, "; ")))
+			}
+			// request body
+			switch e.Body.Kind {
+			case "none":
+				if o.Body != nil {
+					add("C06", fmt.Sprintf("%s: a requestBody is documented but the method has neither @Body nor @FormField", where))
+				}
+			case "json":
+				if o.Body == nil {
+					add("C06", fmt.Sprintf("%s: the @Body parameter is not documented as requestBody", where))
+				} else {
+					sc, ok := o.Body.Content["application/json"]
+					if !ok || len(o.Body.Content) != 1 {
+						add("C06", fmt.Sprintf("%s: requestBody content types %v, expected exactly application/json", where, keysOf(o.Body.Content)))
+					} else if mustJSON(absSchema(sc)) != mustJSON(canon(e.Body.Schema)) {
+						add("C06", fmt.Sprintf("%s: requestBody schema %s, declared type maps to %s", where, mustJSON(absSchema(sc)), mustJSON(canon(e.Body.Schema))))
+					}
+					if o.Body.Required != e.Body.Required {
+						add("C06", fmt.Sprintf("%s: requestBody required=%v, rule says %v", where, o.Body.Required, e.Body.Required))
+					}
+				}
+			case "form":
+				if o.Body == nil {
+					add("C06", fmt.Sprintf("%s: @FormField parameters are not documented as a requestBody", where))
+				} else {
+					sc, ok := o.Body.Content["application/x-www-form-urlencoded"]
+					if !ok || len(o.Body.Content) != 1 {
+						add("C06", fmt.Sprintf("%s: form body content types %v, expected exactly application/x-www-form-urlencoded", where, keysOf(o.Body.Content)))
+					} else {
+						m := asMap(sc)
+						props := asMap(m["properties"])
+						req := map[string]bool{}
+						for _, x := range asSlice(m["required"]) {
+							req[asString(x)] = true
+						}
+						gotF, wantF := []string{}, []string{}
+						for name, ps := range props {
+							gotF = append(gotF, fmt.Sprintf("%s required=%v schema=%s", name, req[name], mustJSON(absSchema(ps))))
+						}
+						for _, f := range e.Body.Fields {
+							wantF = append(wantF, fmt.Sprintf("%s required=%v schema=%s", f.Name, f.Required, mustJSON(canon(f.Schema))))
+						}
+						sort.Strings(gotF)
+						sort.Strings(wantF)
+						if strings.Join(gotF, "; ") != strings.Join(wantF, "; ") {
+							add("C06", fmt.Sprintf("%s: form body properties [%s], declared [%s]", where, strings.Join(gotF, "; "), strings.Join(wantF, "; ")))
+						}
+					}
+				}
+			}
+			// responses: what must be present
+			wantResp := map[string]string{fmt.Sprint(e.Success.Code): mustJSON(canon(e.Success.Schema))}
+			for _, er := range e.Errors {
+				wantResp[fmt.Sprint(er.Code)] = mustJSON(canon(er.Schema))
+			}
+			for code, ws := range wantResp {
+				gr, ok := o.Responses[code]
+				if !ok {
+					add("C06", fmt.Sprintf("%s: response %s is not documented", where, code))
+					continue
+				}
+				gs := `{"k":"none"}`
+				if len(gr.Content) > 0 {
+					sc, ok := gr.Content["application/json"]
+					if !ok {
+						add("C06", fmt.Sprintf("%s: response %s has content types %v", where, code, keysOf(gr.Content)))
+						continue
+					}
+					gs = mustJSON(absSchema(sc))
+				}
+				if gs != ws {
+					add("C06", fmt.Sprintf("%s: response %s documents %s, the signature gives %s", where, code, gs, ws))
+				}
+			}
+			for code := range o.Responses {
+				if _, ok := wantResp[code]; !ok && code != "default" {
+					add("C06", fmt.Sprintf("%s: response %s is documented but not declared", where, code))
+				}
+			}
+		}
+	}
+	checkC06("main", main)
+	checkC06("alt", rec.Runs["alt"])
+
 	// ---- C08: whatever spec file appears is closed -------------------------------------------------------------------
 	for name, r := range rec.Runs {
 		if r.Spec == nil || r.Closure == nil {
@@ -318,15 +473,99 @@ func judgeCase(rec *caseRecord, sum *jSummary) {
 			}
 		}
 	}
-	if !exp.WellLinked {
-		eval("C10", true)
-		if accepted(main) {
-			add("C10", "a route is not well-linked yet the project was accepted")
-		}
-	} else if exp.EnforceOk && exp.SchemesDeclared && exp.Accepted != nil && *exp.Accepted {
-		eval("C10", len(pc.Methods) > 0)
-		if !accepted(main) {
-			add("C10", "every route is well-linked and nothing else is wrong, yet the project was rejected", main.ErrLines...)
+	// ---- C10 (validation half) and C18, on the diagnostics of the in-process GenerateGraph + Validate ----------------------------
+	if v := rec.Validate; v != nil {
+		switch {
+		case v.Panic != "":
+			add("C14", "GenerateGraph/Validate crashed in-process", v.Panic)
+		case v.Stage == "ok":
+			errsOf := map[string][]vDiag{}
+			anyErr := false
+			for _, d := range v.Diags {
+				if d.Severity == 1 {
+					anyErr = true
+					for _, e := range d.Entity {
+						if strings.HasPrefix(e, "Receiver:") {
+							errsOf[strings.TrimPrefix(e, "Receiver:")] = append(errsOf[strings.TrimPrefix(e, "Receiver:")], d)
+						}
+					}
+				}
+			}
+			for _, rt := range exp.Routes {
+				eval("C10", rt.Ptag != "")
+				rejected := len(errsOf[rt.Name]) > 0
+				if pc.Cfg.Enforce {
+					continue // receiver-missing-security is an error of its own; covered by C04
+				}
+				if rejected == !rt.WellLinked {
+					continue
+				}
+				class := "violation"
+				if rejected == !rt.WellLinkedAsBuilt {
+					class = "known:linker-gaps"
+				}
+				what := fmt.Sprintf("route %s (%s) is not well-linked, yet validation reports no error for it", rt.Name, rt.Ptag)
+				if rejected {
+					what = fmt.Sprintf("route %s (%s) is well-linked, yet validation rejects it: %s %s", rt.Name, rt.Ptag, errsOf[rt.Name][0].Code, errsOf[rt.Name][0].Message)
+				}
+				sum.Findings = append(sum.Findings, jFinding{ID: rec.ID, Prop: "C10", Class: class, What: what})
+			}
+			if anyErr && main != nil {
+				eval("C10", true)
+				if accepted(main) {
+					add("C10", "error-severity diagnostics exist, yet the command exited 0")
+				}
+				if len(main.Fs.Created)+len(main.Fs.Modified)+len(main.Fs.Deleted)+len(main.Fs.Touched) > 0 {
+					add("C10", fmt.Sprintf("error-severity diagnostics exist, yet the command changed the file system: %+v", main.Fs))
+				}
+			}
+			// C18
+			seen := map[string]bool{}
+			for _, d := range v.Diags {
+				eval("C18", d.MultiByteBefore || d.DeclFile != pc.Ctrls[0].File+".go")
+				where := fmt.Sprintf("%s %q at %s:%v", d.Code, d.Message, d.File, d.Range)
+				if !d.FileExists {
+					add("C18", "diagnostic names a file that does not exist: "+where)
+					continue
+				}
+				if d.DeclFile != "" && d.File != d.DeclFile {
+					add("C18", fmt.Sprintf("diagnostic names file %s but the construct is declared in %s: %s", d.File, d.DeclFile, where))
+				}
+				if !d.Ordered {
+					add("C18", "diagnostic range starts after it ends: "+where)
+				}
+				if !d.InFile {
+					add("C18", "diagnostic range lies outside its file: "+where)
+				}
+				if d.DeclFile != "" && d.File == d.DeclFile && !d.InDecl {
+					add("C18", "diagnostic range lies outside the comment/declaration it concerns: "+where)
+				}
+				if q := firstQuoted(d.Message); q != "" && isValueDiag(d.Code, d.Message) && d.Covered != q {
+					add("C18", fmt.Sprintf("diagnostic about the value %q covers the text %q: %s", q, d.Covered, where))
+				}
+				k := strings.Join(d.Entity, "/") + "|" + d.Code + "|" + d.Message + "|" + fmt.Sprint(d.Range)
+				if seen[k] {
+					add("C18", "diagnostic reported twice: "+where)
+				}
+				seen[k] = true
+			}
+			if v.ErrText != "" {
+				eval("C18", true)
+				lines := map[string]int{}
+				for _, l := range strings.Split(v.ErrText, "\n") {
+					t := strings.TrimSpace(l)
+					if strings.Contains(t, ".go:") || strings.Contains(t, "Error") {
+						lines[t]++
+					}
+				}
+				for l, n := range lines {
+					if n > 1 && len(l) > 12 {
+						sum.Findings = append(sum.Findings, jFinding{ID: rec.ID, Prop: "C18", Class: "known:error-text-repeats-entity",
+							What: fmt.Sprintf("the command's error text repeats a diagnostic %d times: %.160s", n, l)})
+						break
+					}
+				}
+			}
 		}
 	}
 
@@ -373,4 +612,69 @@ func pipeJudge(args []string) error {
 		return err
 	}
 	return writeJSONFile(*outp, sum)
+}
+
+func keysOf(m map[string]any) []string {
+	out := []string{}
+	for k := range m {
+		out = append(out, k)
+	}
+	sort.Strings(out)
+	return out
+}
+
+// absSchema projects an observed JSON schema into the specification's TypeSchema vocabulary (validator keywords aside).
+func absSchema(v any) any {
+	m := asMap(v)
+	if m == nil {
+		return map[string]any{"k": "none"}
+	}
+	if ref, ok := m["$ref"].(string); ok {
+		return map[string]any{"k": "ref", "name": strings.TrimPrefix(ref, "#/components/schemas/")}
+	}
+	t := ""
+	switch tv := m["type"].(type) {
+	case string:
+		t = tv
+	case []any:
+		for _, x := range tv {
+			if s := asString(x); s != "null" {
+				t = s
+			}
+		}
+	}
+	switch {
+	case t == "array":
+		return map[string]any{"k": "array", "items": absSchema(m["items"])}
+	case t == "object" && m["additionalProperties"] != nil && m["properties"] == nil:
+		return map[string]any{"k": "map", "value": absSchema(m["additionalProperties"])}
+	default:
+		return map[string]any{"k": "prim", "t": t, "f": asString(m["format"])}
+	}
+}
+
+func firstQuoted(msg string) string {
+	i := strings.Index(msg, "'")
+	if i < 0 {
+		return ""
+	}
+	j := strings.Index(msg[i+1:], "'")
+	if j < 0 {
+		return ""
+	}
+	return msg[i+1 : i+1+j]
+}
+
+// isValueDiag: the diagnostics the code documents as being "about an annotation's value" (created through
+// getDiagnosticForAttributeValue / an attribute's value range).
+func isValueDiag(code, msg string) bool {
+	switch code {
+	case "annotation-value-invalid", "unsupported-feature":
+		return true
+	case "linker-path-annotation-invalid-reference":
+		return strings.HasPrefix(msg, "@")
+	case "linker-multiple-parameter-refs":
+		return true
+	}
+	return false
 }
